@@ -69,3 +69,46 @@ def gen(rng, tier, profile, count):
         c.meta["mut_kinds"] = kinds
         cases.append(c)
     return cases
+
+
+def gen_multi(rng, tier, profile, count):
+    """several polynomials in one Ligero opening (kind c13, sub ligmulti)"""
+    cases = []
+    big = tier != "quick"
+    for k in range(count):
+        c = Case("ligm-%d" % k, "c13")
+        ml = rng.random() < 0.4
+        n = rng.randint(2, 4 if big else 3)
+        wf = rng.choice([0, 1, 1])
+        rho = rng.choice([2, 2, 3, 4, 4, 5, 8])
+        sec = rng.choice([20, 40, 80, 128]) if not big else rng.choice([40, 80, 100, 128])
+        c.set("sub", "ligmulti").set("lig", sec, rho, wf).set("n", n)
+        shapes = []
+        if ml:
+            nv = rng.randint(1, 7 if big else 5)
+            c.set("scheme", "ligero_ml").set("num_vars", nv)
+            for i in range(n):
+                shape = rng.choice(["dense", "dense", "sparse", "zero", "const"])
+                m = 1 << nv
+                co = ([0] * m if shape == "zero" else [rf_uniform(rng, P)] * m if shape == "const" else
+                      [rf_uniform(rng, P) if rng.random() < 0.3 else 0 for _ in range(m)] if shape == "sparse" else [rf_uniform(rng, P) for _ in range(m)])
+                c.set("poly.%d" % i, co)
+                shapes.append(shape)
+            c.set("pt", [rng.choice([0, 1]) if rng.random() < 0.15 else rf_uniform(rng, P) for _ in range(nv)])
+        else:
+            c.set("scheme", "ligero_uni")
+            for i in range(n):
+                co, shape = _poly(rng, big)
+                c.set("poly.%d" % i, co)
+                shapes.append(shape)
+            c.set("pt", rf_uniform(rng, P))
+        c.set("bad_pos", rng.randrange(n)).set("delta", rng.choice([1, P - 1, rf_nz(rng, P)]))
+        nm = 0 if profile == "c01" else (3 if profile == "c02" else 8)
+        kinds = rng.sample(MUTS + ["list_drop", "list_extend"], nm)
+        for i, kd in enumerate(kinds):
+            c.set("mut.%d" % i, kd, rng.randrange(64), rng.randrange(64))
+        c.meta["shapes"] = ["ligm:%s:n%d" % ("ml" if ml else "uni", n), "ligm:wf%d" % wf] + ["ligm:%s" % x for x in shapes] + ["ligm:mut:%s" % kd for kd in kinds]
+        c.meta["in_domain"] = True
+        c.meta["mut_kinds"] = kinds
+        cases.append(c)
+    return cases
